@@ -28,7 +28,18 @@ def pfx_kind(l):
     return "any"
 
 
+def pfx_len(l):
+    """length of the symbolic prefix; a list that is a *view* (the first k elements of a base sequence) answers k"""
+    v = getattr(l, "view", None)
+    if v is not None:
+        return v[1]
+    return z3.Length(l.prefix)
+
+
 def pfx_elem(l, i):
+    v = getattr(l, "view", None)
+    if v is not None and pfx_kind(l) == "nodes":
+        return node_rec(v[0][i])        # element i of the view is element i of its base (0 <= i < k <= len(base))
     k = pfx_kind(l)
     if k == "chars":
         return mk_str(z3.SubString(l.prefix, i, 1))
@@ -143,7 +154,7 @@ def py_len(I, v):
         return mk_int(z3.Length(v.z))
     if isinstance(v, ListV):
         if v.prefix is not None:
-            return mk_int(z3.Length(v.prefix) + len(v.items))
+            return mk_int(pfx_len(v) + len(v.items))
         return len(v.items)
     if isinstance(v, SetV):
         return len(v.items)
@@ -574,12 +585,12 @@ def getitem(I, v, idx, node=None):
                 return items[idx]
             if isinstance(idx, int) and idx < 0:
                 k = -idx - len(items)      # k-th from the end of the prefix
-                n = z3.Length(v.prefix)
+                n = pfx_len(v)
                 if not ctx.branch(n >= k):
                     raise PyRaise("IndexError", "list index out of range", site=node)
                 return pfx_elem(v, n - k)
             if is_intlike(idx):
-                n = z3.Length(v.prefix)
+                n = pfx_len(v)
                 i = zi(idx)
                 if not ctx.branch(i >= 0):
                     raise OutOfReach("negative symbolic index into symbolic-length list")
@@ -1160,11 +1171,16 @@ def list_method(I, l, name, args, kwargs, node=None):
         if l.items:
             return l.items.pop()
         if l.prefix is not None:
-            n = z3.Length(l.prefix)
+            n = pfx_len(l)
             if not ctx.branch(n > 0):
                 raise PyRaise("IndexError", "pop from empty list", site=node)
             last = pfx_elem(l, n - 1)
-            l.prefix = z3.Extract(l.prefix, 0, n - 1)
+            v = getattr(l, "view", None)
+            if v is not None:
+                l.view = (v[0], n - 1)
+                l.prefix = z3.Extract(v[0], 0, n - 1)
+            else:
+                l.prefix = z3.Extract(l.prefix, 0, n - 1)
             return last
         raise PyRaise("IndexError", "pop from empty list", site=node)
     if name == "index":
@@ -1838,6 +1854,9 @@ def _is_prefix_list(I, args, kwargs):
     a, b = args
     if isinstance(a, ListV) and isinstance(b, ListV):
         if a.prefix is not None and b.prefix is not None and not a.items and not b.items:
+            va = getattr(a, "view", None)
+            if va is not None and getattr(b, "view", None) is None and va[0].get_id() == b.prefix.get_id():
+                return mk_bool(z3.And(va[1] >= 0, va[1] <= z3.Length(b.prefix)))      # a view of b itself
             return mk_bool(z3.PrefixOf(a.prefix, b.prefix))
         if a.prefix is None and b.prefix is None:
             if len(a.items) > len(b.items):
